@@ -14,6 +14,12 @@
 
 static std::string hexd(double v){ char b[64]; std::snprintf(b, sizeof b, "%a", v); return b; }
 
+// a local-expansion type three times the size of the multipole type (C14: the three buffers of a cell group have different sizes)
+struct Loc3 {
+    long v = 0, a = 0, b = 0;
+    bool operator!=(const Loc3& o) const { return v != o.v || a != o.a || b != o.b; }
+    bool operator!=(long x) const { return v != x || a != 0 || b != 0; }
+};
 static constexpr long NX = 2;   // extra data values beyond the coordinates
 
 template <class Tree>
@@ -50,7 +56,8 @@ std::string run_tree(const Cmd& c){
     constexpr long ND = D + NX;
     // result values per particle: 2 in even dimensions, MORE than the data values in odd dimensions (both orders of the two counts occur)
     constexpr long NR = (D % 2 == 1) ? ND + 2 : 2;
-    using Tree = TbfTree<double, double, ND, long, NR, long, long, Space>;
+    using LocT = std::conditional_t<(D % 2 == 1), Loc3, long>;     // odd dimensions: multipole 8 bytes, local 24 bytes
+    using Tree = TbfTree<double, double, ND, long, NR, long, LocT, Space>;
     bool rhs_set = false;
     auto xrhs = [&](long v, long i) -> long { return rhs_set ? 5000 * v + 13 * i + v : 0; };   // expected value of result row v >= 2
     const long H = c.L(3), B = c.L(4), mode = c.L(5), N = c.L(6);
